@@ -176,11 +176,14 @@ class Run(RunBase):
     def enabled(self, op):
         m, u = self.m, self.universe
         k = op["op"]
-        if k in ("add", "add_list", "add_new", "gen", "restart"):
+        if k in ("add", "add_list", "add_new", "gen", "restart", "erase_net"):
             if k == "add":
                 return op["key"] in u["objects"]
             if k == "add_list":
                 return all(x in u["objects"] for x in op["keys"])
+            if k == "add_new":
+                ids = [op["id"]] + list(op.get("incoming_ids", []))
+                return len(ids) == len(set(ids))  # an object whose own ids repeat is not part of the universe
             return True
         if k == "add_net":
             return op["key"] in u["nets"] and m.net_empty()
@@ -388,6 +391,22 @@ class Run(RunBase):
         self._check_state(op, "state-after-replace")
         return "ok"
 
+    def _op_erase_net(self, op):
+        op.setdefault("kind", "network")
+        old = set(self.m.ids_of_kind("lanelet", "sign", "light", "intersection", "incoming"))
+        try:
+            self.sc.erase_lanelet_network()
+        except Exception as e:  # noqa
+            raise Violation(f"C09/erase-failed/{_tag(op)}",
+                            f"erase_lanelet_network (network ids {sorted(old)}) raised {type(e).__name__}: {e}",
+                            {"id_set": sorted(self.sc._id_set)})
+        for i in self.m.ids_of_kind("lanelet", "sign", "light", "intersection"):
+            if i in self.m.contained:
+                self.m.remove_id(i)
+        self.probe("erase-network")
+        self._check_state(op, "state-after-erase")
+        return "ok"
+
     def _op_gen(self, op):
         g = self.sc.generate_object_id()
         if g in self.m.contained:
@@ -469,8 +488,45 @@ class Run(RunBase):
         self.probe("restart-" + op["how"])
         if op["how"] == "pickle":
             self.sc = pickle.loads(pickle.dumps(self.sc))
-        else:
+        elif op["how"] == "deepcopy":
             self.sc = copy.deepcopy(self.sc)
+        else:
+            # write -> read: the scenario the reader builds must have an exact id pool as well.  Whether every
+            # scenario can be serialised is C01/C02's business: a failing round trip is skipped.
+            import os
+            import tempfile
+
+            from commonroad.common.file_reader import CommonRoadFileReader
+            from commonroad.common.file_writer import CommonRoadFileWriter
+            from commonroad.common.util import FileFormat
+            from commonroad.common.writer.file_writer_interface import OverwriteExistingFile
+            from commonroad.planning.planning_problem import PlanningProblemSet
+            from commonroad.scenario.scenario import Tag
+
+            fmt = FileFormat.XML if op["how"] == "xml" else FileFormat.PROTOBUF
+            d = tempfile.mkdtemp(prefix="c09-", dir="/dev/shm" if os.path.isdir("/dev/shm") else None)
+            try:
+                path = os.path.join(d, "rt" + fmt.value)
+                CommonRoadFileWriter(self.sc, PlanningProblemSet(), author="sim", affiliation="verif",
+                                     source="generated", tags={Tag.URBAN}, file_format=fmt).write_to_file(
+                    path, OverwriteExistingFile.ALWAYS)
+                sc2, _ = CommonRoadFileReader(path, fmt).open()
+                if [list(t) for t in sut_abstract(sc2)] == [list(t) for t in sut_abstract(self.sc)]:
+                    self.sc = sc2
+                    self.m.returned = set()  # a new Scenario object: its generator starts afresh
+                    self.gen_history = []
+                    self.pending_gen = set()
+                    self.probe("restart-file")
+                else:
+                    self.probe("restart-file-skipped-inventory-differs")
+            except Violation:
+                raise
+            except Exception:  # noqa
+                self.probe("restart-file-skipped-roundtrip-raised")
+            finally:
+                import shutil
+
+                shutil.rmtree(d, ignore_errors=True)
         self._check_state(op, "state-after-restart")
         return "ok"
 
@@ -513,7 +569,7 @@ def _gen_adder(rng, run):
         if kind == "intersection":
             g2 = yield {"op": "gen"}
             op["incoming_ids"] = [g2]
-        if rng.chance(0.15):
+        if rng.chance(0.15) or not run.enabled(op):
             continue  # generated but never used: the id must still never come back
         yield op
 
@@ -574,7 +630,9 @@ def _replacer(rng, run):
     u = run.universe
     while True:
         nets = [k for k in sorted(u["nets"]) if run.enabled({"op": "replace_net", "key": k})]
-        if nets:
+        if rng.chance(0.25) and not run.m.net_empty():
+            yield {"op": "erase_net"}
+        elif nets:
             yield {"op": "replace_net", "key": rng.pick(nets)}
         else:
             yield None
@@ -582,7 +640,7 @@ def _replacer(rng, run):
 
 def _restarter(rng, run):
     while True:
-        yield {"op": "restart", "how": rng.pick(["pickle", "deepcopy"])}
+        yield {"op": "restart", "how": rng.pick(["pickle", "deepcopy", "pickle", "deepcopy", "xml", "pb"])}
 
 
 CLIENTS = {"adder": (_adder, 3.0), "gen_adder": (_gen_adder, 2.0), "remover": (_remover, 3.0),
@@ -597,7 +655,8 @@ class C09(Property):
                        "remove-sign-list", "remove-light-list", "remove-intersection-list", "remove-obstacle-list",
                        "remove-intersection-single", "lanelet-removal-takes-sign-or-light",
                        "lanelet-removal-leaves-shared-sign", "replace-overlapping-ids", "restart-pickle",
-                       "restart-deepcopy", "remove-non-contained-obstacle", "gen-between-gen-and-add"]
+                       "restart-deepcopy", "remove-non-contained-obstacle", "gen-between-gen-and-add", "erase-network",
+                       "restart-file"]
     assumptions = [
         "interleaving granularity is one public call (the library has no threads)",
         "list-form adds are sequential adds: the accepted prefix before a refused element stays (documented relaxation)",
